@@ -31,6 +31,21 @@ func init() {
 			for _, n := range []int{0, 1, 15, 17, 31, 33} { // whole-block inputs run the real SM4 symbolically: too heavy, covered over UF-E in pkcs
 				add("cfca", "verifH_c13_cfca_decrypt", P("n", n))
 			}
+			maxSig := 8
+			if tier != "quick" {
+				maxSig = 11
+			}
+			for n := 0; n <= maxSig; n++ {
+				add("sm9", "verifH_c13_sm9_parsesig", P("n", n))
+			}
+			for _, n := range []int{0, 1, 10, 63, 64, 65, 95, 96} {
+				add("sm9", "verifH_c13_sm9_decrypt_short", P("n", n))
+			}
+			for which := 0; which < 6; which++ {
+				for n := 0; n <= 3; n++ {
+					add("sm9", "verifH_c13_sm9_unmarshal", P("which", which, "n", n))
+				}
+			}
 			return cs
 		},
 		Functions:   []string{"pkcs7.ber2der/readObject/isIndefiniteTermination/encodeLength", "pkcs.cbcDecrypt/cbcEncrypt, (*ecbBlockCipher).Decrypt (PBES1/PBES2/PKCS#7/PKCS#8 content decryption)", "cfca.DecryptBySM4CBC", "crypto/cipher CBC (real generic code over UF-E)", "padding.pkcs7Padding.Unpad"},
